@@ -102,7 +102,7 @@ def main():
         if stats["evaluations"] % 2000 == 0 or stats["evaluations"] >= runs:
             flush()
 
-    atheris.Setup([sys.argv[0], f"-runs={runs}", f"-seed={seed}", "-max_len=322", "-len_control=0", "-print_final_stats=0", corpus], one)
+    atheris.Setup([sys.argv[0], f"-runs={runs}", "-max_total_time=420", f"-seed={seed}", "-max_len=322", "-len_control=0", "-print_final_stats=0", corpus], one)
     atheris.Fuzz()
 
 
